@@ -993,8 +993,8 @@ impl Sim for BodySim {
     }
     fn runs(_p: &str, tier: Tier) -> u64 {
         match tier {
-            Tier::Quick => 60_000,
-            Tier::Thorough => 3_000_000,
+            Tier::Quick => 300_000,
+            Tier::Thorough => 20_000_000,
         }
     }
     fn meta(_p: &str) -> SimMeta {
